@@ -9,7 +9,7 @@ PID = "C13"
 def run(tier):
     ck = Check(PID, tier, "model_checking")
     ck.cov["rule"] = ("TLC enumerates every paint graph of the family (3 nodes over all six paint kinds; 4 nodes over "
-                      "solid/transform/glyph/colrglyph; chains up to 66 nodes for the depth limit and nested PaintGlyph "
+                      "solid/transform/glyph/colrglyph, thorough also layers; chains up to 66 nodes for the depth limit and nested PaintGlyph "
                       "cost) x both answers of the cache callback, evaluates the traversal model (decycler, two-pass "
                       "PaintGlyph with collecting painter) and checks balance, named errors and the work bound on it; "
                       "each graph is built into a real COLR v1 table and painted with a recording ColorPainter; the "
@@ -20,7 +20,8 @@ def run(tier):
                       "work bound: a node occurrence may be traversed once per enclosing PaintGlyph plus once"]
     wd = vlib.workdir(PID)
     vlib.stage_specs(wd, "colr", "common")
-    fams = ["3", "4", "clips", "chains"]
+    # thorough adds all 382 500 four-node graphs over five paint kinds (everything but composite)
+    fams = ["3", "4", "clips", "chains"] + ([] if tier == "quick" else ["4b"])
     for fam in fams:
         r = vlib.run_tlc(wd, "PaintTraverseMC", cfg="PaintTraverseMC_%s.cfg" % fam, workers=8, out_name=fam + ".out", timeout=3000)
         ck.add_tlc("tlc:graphs-" + fam, r)
